@@ -277,6 +277,7 @@ func Run(r *ev.Run) {
 	r.RequireAtLeast("stored_values_checked_protected", 100)
 	r.RequireAtLeast("db_stream_marker_checks", 100)
 	r.RequireAtLeast("nonowner_reads_checked", 20)
+	r.RequireAtLeast("values_with_percent_runs_written", 30)
 	r.RequireAtLeast("app_encrypted_writes", 5)
 	if MySQLLayer != nil {
 		// the MySQL part: same oracles over the MySQL rig (switches the process-wide SQL dialect, so it runs after the PostgreSQL part)
@@ -467,6 +468,12 @@ func RunStep(r *ev.Run, w *World, ac, rc *proxyrig.PGClient, st proxyrig.Step, h
 		c := t.Col(wr.Col)
 		k := wr.Table + "." + wr.Col
 		w.Written[k] = append(w.Written[k], wr)
+		if b := wr.V.Bytes(); bytes.HasPrefix(b, []byte("%")) || bytes.HasSuffix(b, []byte("%")) || bytes.Contains(b, []byte("w%")) || bytes.Contains(b, []byte("%w")) {
+			r.Count("values_with_percent_runs_written", 1)
+			if c != nil && c.Kind == "mask" {
+				r.Count("masked_values_with_percent_runs_at_the_window_written", 1)
+			}
+		}
 		m := wr.V.Marker()
 		if m == nil {
 			continue
